@@ -2,8 +2,9 @@
    Z, N, positive, Q stay the extracted inductive types (no Extract Constant/Inductive). *)
 From Coq Require Import Extraction ExtrOcamlBasic ExtrOcamlNativeString.
 From Coq Require Import ZArith QArith.
-From NV Require Import Arith.Num Arith.Expr Arith.Eq Gen.StdNumber.
+From NV Require Import Arith.Num Arith.Expr Arith.Eq Arith.EqX Gen.StdNumber.
 Extraction "c16_model.ml"
   eval_top std_number_table from_sci
   dv_eqb eq_machine canon export wf enum_free
+  xeq_machine norm xwf embed
   Z.add Z.mul Z.opp Z.div_eucl Z.of_N Z.to_N Z.compare Z.pos_div_eucl N.add N.mul Qred.
